@@ -412,8 +412,8 @@ func ms(us int64) string { return fmt.Sprintf("%.1f", float64(us)/1000) }
 //	  otherwise (inside the margin)    : nothing is asserted from here on
 //	Delays (late scheduling of the broker, of the client's reader, of timers) can only make a close LATER and a
 //	packet's arrival LATER, so "closed early, relative to the last packet sent before it" needs no allowance;
-//	"survives a safe interval" and "closed in time" are asserted only if three times the worst scheduling delay
-//	measured around that interval, plus 30 ms, fits in the margin.
+//	"survives a safe interval" and "closed in time" are asserted only if four times the worst scheduling delay
+//	measured around that interval, plus 40 ms, fits in the margin.
 func c37Judge(cn c37Conn, o c37Obs, j *c37Jitter) (c37Verdict, []evid.Disc) {
 	v := c37Verdict{CloseOffUs: -1}
 	desc := func() string {
@@ -434,7 +434,7 @@ func c37Judge(cn c37Conn, o c37Obs, j *c37Jitter) (c37Verdict, []evid.Disc) {
 	}
 	if o.Connack != 0 {
 		// only a starved process can fail to deliver a CONNACK within the observation; K = 1 leaves >= 1 s for it
-		if jit := j.over(o.B[0], o.End); 3*jit+30000 > 400000 {
+		if jit := j.over(o.B[0], o.End); 4*jit+40000 > 400000 {
 			v.Class, v.JitterUs = "dropped-jitter", jit
 			return v, nil
 		}
@@ -466,7 +466,7 @@ func c37Judge(cn c37Conn, o c37Obs, j *c37Jitter) (c37Verdict, []evid.Disc) {
 		if jit > v.JitterUs {
 			v.JitterUs = jit
 		}
-		return 3*jit+30000 <= M
+		return 4*jit+40000 <= M
 	}
 	n := len(o.B)
 	survivedLong := false // survived a gap of at least K seconds: would be fatal with a factor of 1 instead of 1.5
@@ -570,11 +570,8 @@ type c37Stats struct {
 
 var c37S = c37Stats{closeOff: map[int][]int64{}}
 
-func c37Check(c c37Case, r *evid.Rec) []evid.Disc {
-	if len(c.Conns) == 0 {
-		return nil
-	}
-	start := time.Now()
+// c37Execute runs all connections of a case concurrently against a fresh broker and returns what was measured.
+func c37Execute(c c37Case, r *evid.Rec) ([]c37Obs, *c37Jitter, bool) {
 	srv := mqtt.New(&mqtt.Options{Logger: slog.New(slog.NewTextHandler(io.Discard, &slog.HandlerOptions{Level: slog.LevelError + 4}))})
 	_ = srv.AddHook(new(auth.AllowHook), nil)
 	var hwg sync.WaitGroup
@@ -645,15 +642,68 @@ func c37Check(c c37Case, r *evid.Rec) []evid.Disc {
 		r.Label("broker-handlers-slow-to-return")
 	}
 	_ = srv.Close()
+	return obs, jit, e.tcpAddr != ""
+}
+
+// c37Confirmations: a discrepancy is reported only if the same connection script, re-run in a fresh small case,
+// shows the same signature again this many times. The mechanism under test is deterministic arithmetic on a
+// deadline, so a genuine defect repeats; a scheduling accident that slipped past the delay probes does not.
+const c37Confirmations = 2
+
+func c37Check(c c37Case, r *evid.Rec) []evid.Disc {
+	if len(c.Conns) == 0 {
+		return nil
+	}
+	start := time.Now()
+	obs, jit, tcpOK := c37Execute(c, r)
+
+	verdicts := make([]c37Verdict, len(c.Conns))
+	discs := make([][]evid.Disc, len(c.Conns))
+	suspects := []int{}
+	for i, cn := range c.Conns {
+		verdicts[i], discs[i] = c37Judge(cn, obs[i], jit)
+		for _, d := range discs[i] {
+			if !r.IsKnown(d.Sig) {
+				suspects = append(suspects, i)
+				break
+			}
+		}
+	}
+	for round := 0; round < c37Confirmations && len(suspects) > 0; round++ {
+		sub := c37Case{HorizonMs: c.HorizonMs}
+		for _, i := range suspects {
+			sub.Conns = append(sub.Conns, c.Conns[i])
+		}
+		o2, j2, _ := c37Execute(sub, r)
+		var still []int
+		for n, i := range suspects {
+			_, d2 := c37Judge(sub.Conns[n], o2[n], j2)
+			same := false
+			for _, d := range d2 {
+				for _, d0 := range discs[i] {
+					same = same || d.Sig == d0.Sig
+				}
+			}
+			if same {
+				still = append(still, i)
+				continue
+			}
+			r.Label("discrepancy-not-reproduced " + discs[i][0].Sig)
+			fmt.Printf("C37: discrepancy not reproduced on re-run, dropped: [%s] %s\n", discs[i][0].Sig, discs[i][0].Msg)
+			verdicts[i].Asserted, verdicts[i].NonTrivial, verdicts[i].Class = false, false, "dropped-not-reproduced"
+			discs[i] = nil
+		}
+		suspects = still
+	}
 
 	var ds []evid.Disc
 	r.EvalN(int64(len(c.Conns)) - 1) // one evaluation per connection (evid.Run counted one for the case)
 	var judged, dropped int64
 	for i, cn := range c.Conns {
-		v, d := c37Judge(cn, obs[i], jit)
+		v, d := verdicts[i], discs[i]
 		ds = append(ds, d...)
 		tr := "pipe"
-		if cn.TCP && e.tcpAddr != "" {
+		if cn.TCP && tcpOK {
 			tr = "tcp"
 		}
 		r.Label(fmt.Sprintf("k%d %s", cn.K, v.Class))
@@ -804,9 +854,9 @@ func TestC37(t *testing.T) {
 		"with keepalive K in {0,1,2,3} s and a script of PINGREQ / QoS 0 PUBLISH gaps followed by silence; one evaluation = one connection. "+
 		"Oracle on MEASURED send and close times with boundary 1.5 x K and margin max(K/4, 0.4 s): every gap <= 1.5K - margin must be survived; after a gap or silence >= 1.5K + margin the "+
 		"connection must have been closed, not earlier than 1.5K - margin after the last packet; K = 0 is never closed. Connections whose measured gaps fall inside a margin, or whose intervals saw a "+
-		"scheduling delay with 3 x delay + 30 ms > margin (sleeper probes and deadline canaries run with every case), are dropped and counted as not asserted. "+
+		"scheduling delay with 4 x delay + 40 ms > margin (sleeper probes and deadline canaries run with every case), are dropped and counted as not asserted. "+
 		"Non-trivial = a closure that was judged against the window, or a connection that provably survived a gap >= K seconds (fatal with a factor of 1), or a K = 0 connection silent for >= 1.9 s; "+
-		"distinct by (K, version, transport, gaps at 50 ms resolution, packet kinds)")
+		"distinct by (K, version, transport, gaps at 50 ms resolution, packet kinds). A discrepancy is reported only after the same script reproduced it in two fresh re-runs")
 	defer r.Finish(t)
 	r.Assume("real-time check: the verdict is a function of measured times, so a replay re-executes the saved schedule in real time (about 9 s) and judges the new measurements")
 	r.Assume("time.Now is monotonic within the process and runtime timers / connection deadlines never fire early")
